@@ -131,7 +131,7 @@ public:
    * @brief Writes a formatted log message to the stream
    */
   QUILL_ATTRIBUTE_HOT void write_log(MacroMetadata const* /* log_metadata */,
-                                     uint64_t /* log_timestamp */, std::string_view /* thread_id */,
+                                     uint64_t log_timestamp, std::string_view /* thread_id */,
                                      std::string_view /* thread_name */, std::string const& /* process_id */,
                                      std::string_view /* logger_name */, LogLevel /* log_level */,
                                      std::string_view /* log_level_description */,
@@ -149,10 +149,12 @@ public:
     {
       std::string const user_log_statement = _file_event_notifier.before_write(log_statement);
 
+      before_stream_write(user_log_statement.size(), log_timestamp);
       safe_fwrite(user_log_statement.data(), sizeof(char), user_log_statement.size(), _file);
     }
     else
     {
+      before_stream_write(log_statement.size(), log_timestamp);
       safe_fwrite(log_statement.data(), sizeof(char), log_statement.size(), _file);
     }
 
@@ -203,6 +205,14 @@ public:
   }
 
 protected:
+  /**
+   * Called by write_log with the number of bytes it is about to write to the stream, which is
+   * not always the size of log_statement (json line, before_write). Size rotation hooks in here
+   */
+  QUILL_ATTRIBUTE_HOT virtual void before_stream_write(size_t /* bytes */, uint64_t /* log_timestamp */)
+  {
+  }
+
   /**
    * Flushes the stream
    */
